@@ -10,7 +10,7 @@ JPEG = b'\xff\xd8\xff\xe0\x00\x10JFIF\x00\x01\x01\x00\x00\x01\x00\x01\x00\x00' +
 T0 = datetime(2021, 5, 6, 7, 8, 9, tzinfo=timezone.utc)
 
 KINDS = ['doc-bytes', 'doc-str', 'doc-empty', 'literal-b', 'literal-u', 'literal-t', 'cleartext', 'cleartext-blank', 'none', 'uid-self', 'uid-other', 'ua-self', 'ua-other',
-         'key-direct-self', 'key-direct-other', 'revoke-key', 'revoke-subkey', 'revoke-uid', 'bind', 'revoker', 'attest']
+         'key-direct-self', 'key-direct-other', 'revoke-key', 'revoke-subkey', 'revoke-uid', 'bind', 'bind-ecdh', 'revoker', 'attest']
 
 HASHES = {'MD5': 1, 'SHA1': 2, 'SHA224': 11, 'SHA256': 8, 'SHA384': 9, 'SHA512': 10}
 
@@ -136,6 +136,13 @@ def pgpy_triple(signer, kind, hashname=None, opts=None, level=None):
         elif kind == 'bind':
             sk = list(k.subkeys.values())[0]
             t.sig, t.subject, t.refsubj = k.bind(sk, **opts), list(pub.subkeys.values())[0], {'primary': prim, 'subkey': subs[0]}
+        elif kind == 'bind-ecdh':
+            # the second subkey: encryption only (ECDH), its public part ends with the KDF parameters
+            sk = list(k.subkeys.values())[1]
+            from pgpy.constants import KeyFlags
+            o2 = dict(opts)
+            o2.setdefault('usage', {KeyFlags.EncryptCommunications, KeyFlags.EncryptStorage})
+            t.sig, t.subject, t.refsubj = k.bind(sk, **o2), list(pub.subkeys.values())[1], {'primary': prim, 'subkey': subs[1]}
         elif kind == 'revoker':
             other = target_key()
             t.sig, t.subject, t.refsubj = k.revoker(other.pubkey, **opts), pub, {'primary': prim}
